@@ -115,8 +115,36 @@ class Folder:
             fn = e.func
             if isinstance(fn, ast.Name) and fn.id == 'bytes' and len(e.args) == 1 and not e.keywords:
                 v = self._fold(e.args[0], mod, cls, env)
-                if isinstance(v, (list, tuple)) and all(isinstance(x, int) for x in v):
+                if isinstance(v, (list, tuple)) and all(isinstance(x, int) and not isinstance(x, bool) for x in v):
+                    try:
+                        return bytes(v)
+                    except ValueError:
+                        return UNKNOWN
+                if isinstance(v, bytes):
+                    return v
+                if isinstance(v, int) and not isinstance(v, bool) and 0 <= v <= 70000:
                     return bytes(v)
+                return UNKNOWN
+            if isinstance(fn, ast.Name) and fn.id == 'memoryview' and len(e.args) == 1 and not e.keywords:
+                v = self._fold(e.args[0], mod, cls, env)
+                return v if isinstance(v, bytes) else UNKNOWN
+            if (dotted(fn) or '') == 'int.from_bytes' and 1 <= len(e.args) <= 2:
+                vs = [self._fold(a, mod, cls, env) for a in e.args]
+                kw = {k.arg: self._fold(k.value, mod, cls, env) for k in e.keywords}
+                order = vs[1] if len(vs) == 2 else kw.pop('byteorder', 'big')
+                signed = kw.pop('signed', False)
+                if isinstance(vs[0], bytes) and order in ('big', 'little') and isinstance(signed, bool) and not kw:
+                    return int.from_bytes(vs[0], order, signed=signed)
+                return UNKNOWN
+            if (dotted(fn) or '') in ('unpack', 'struct.unpack') and len(e.args) == 2 and not e.keywords:
+                vs = [self._fold(a, mod, cls, env) for a in e.args]
+                if isinstance(vs[0], str) and isinstance(vs[1], bytes):
+                    import struct
+
+                    try:
+                        return struct.unpack(vs[0], vs[1])
+                    except Exception:
+                        return UNKNOWN
                 return UNKNOWN
             if isinstance(fn, ast.Name) and fn.id in ('int', 'len', 'ord', 'chr', 'bool', 'min', 'max', 'pow', 'abs') and not e.keywords:
                 vs = [self._fold(a, mod, cls, env) for a in e.args]
@@ -143,6 +171,38 @@ class Folder:
                     if isinstance(v, int):
                         return v
             return UNKNOWN
+        if isinstance(e, ast.Dict):
+            out_d = {}
+            for k, v in zip(e.keys, e.values):
+                if k is None:
+                    return UNKNOWN
+                kk, vv = self._fold(k, mod, cls, env), self._fold(v, mod, cls, env)
+                if kk is UNKNOWN or vv is UNKNOWN or isinstance(kk, (list, dict, ClassRef)):
+                    return UNKNOWN
+                out_d[kk] = vv
+            return out_d
+        if isinstance(e, ast.Subscript):
+            base = self._fold(e.value, mod, cls, env)
+            if isinstance(base, dict) and not isinstance(e.slice, ast.Slice):
+                k = self._fold(e.slice, mod, cls, env)
+                try:
+                    return base[k] if k is not UNKNOWN and k in base else UNKNOWN
+                except TypeError:
+                    return UNKNOWN
+            if not isinstance(base, (bytes, tuple, list, str)):
+                return UNKNOWN
+            if isinstance(e.slice, ast.Slice):
+                parts = []
+                for x in (e.slice.lower, e.slice.upper, e.slice.step):
+                    v = None if x is None else self._fold(x, mod, cls, env)
+                    if v is not None and (v is UNKNOWN or isinstance(v, bool) or not isinstance(v, int)):
+                        return UNKNOWN
+                    parts.append(v)
+                return base[slice(*parts)]
+            i = self._fold(e.slice, mod, cls, env)
+            if isinstance(i, int) and not isinstance(i, bool) and -len(base) <= i < len(base):
+                return base[i]
+            return UNKNOWN
         if isinstance(e, ast.Compare) and len(e.ops) == 1:
             l = self._fold(e.left, mod, cls, env)
             r = self._fold(e.comparators[0], mod, cls, env)
@@ -162,9 +222,11 @@ class Folder:
                     return l > r
                 if isinstance(op, ast.GtE):
                     return l >= r
-                if isinstance(op, ast.In) and isinstance(r, (tuple, list, set, frozenset)):
+                if isinstance(op, (ast.Is, ast.IsNot)) and (l is None or r is None or isinstance(l, bool) or isinstance(r, bool)):
+                    return (l is r) if isinstance(op, ast.Is) else (l is not r)
+                if isinstance(op, ast.In) and isinstance(r, (tuple, list, set, frozenset, dict)):
                     return l in r
-                if isinstance(op, ast.NotIn) and isinstance(r, (tuple, list, set, frozenset)):
+                if isinstance(op, ast.NotIn) and isinstance(r, (tuple, list, set, frozenset, dict)):
                     return l not in r
             except TypeError:
                 return UNKNOWN
@@ -208,6 +270,14 @@ class Folder:
             # nested class?
             if cls_qn + '.' + name in self.model.classes:
                 return ClassRef(cls_qn + '.' + name)
+            # a singleton bound after the class body, at module level:  AFI.ipv4 = AFI.from_int(AFI.IPv4)  (an int subclass)
+            ci = self.model.classes.get(cls_qn)
+            if ci is not None and self.is_int_class(cls_qn):
+                found = [st.value for st in ci.module.tree.body if isinstance(st, ast.Assign) and len(st.targets) == 1 and isinstance(st.targets[0], ast.Attribute) and st.targets[0].attr == name and isinstance(st.targets[0].value, ast.Name) and st.targets[0].value.id == ci.name]
+                if len(found) == 1 and isinstance(found[0], ast.Call) and len(found[0].args) == 1 and not found[0].keywords and dotted(found[0].func) in (ci.name, ci.name + '.from_int'):
+                    v = self._fold_named(found[0].args[0], ci.module, ci, (cls_qn, name + '@module'))
+                    if isinstance(v, int):
+                        return v
             return UNKNOWN
         return self._fold_named(r[1], r[0].module, r[0], (r[0].qualname, name))
 
